@@ -144,6 +144,19 @@ def run_lookup(case, pname):
             eq("lookup(key='', value='k')", etl.lookup([[u'', 'v']] + rows, u'', 'v'), {k: [r[1] for r in v] for k, v in want_all.items()})
     except Exception as e:
         problems.append('lookup with dictionary= / falsy field spec raised %r' % (e,))
+    # ragged rows (the first row of a key shorter than the header): every lookup flavour sees the same, squared-up, record
+    try:
+        if not compound:
+            tr = [hdr + ['w']] + [r[:(1 if i % 2 == 0 else 2)] + ([] if i % 2 == 0 else [i]) for i, r in enumerate(rows)]
+            d_all, d_one = etl.dictlookup(tr, key), etl.dictlookupone(tr, key)
+            r_one = etl.recordlookupone(tr, key)
+            for k in d_all:
+                first = d_all[k][0]
+                if d_one[k] != first or set(first) != set(hdr + ['w']) or any(r_one[k][f] != first[f] for f in first):
+                    problems.append('ragged table %r: dictlookup[%r][0] = %r, dictlookupone = %r, recordlookupone = %r' % (tr, k, first, d_one[k], tuple(r_one[k])))
+                    break
+    except Exception as e:
+        problems.append('lookups on a ragged table raised %r' % (e,))
     # a value column that holds None in the FIRST row of every key: the first row still wins
     try:
         tn = [hdr + ['w']] + [r + [None if all(tuple(r[:len(r) - 1]) != tuple(q[:len(q) - 1]) for q in rows[:i]) else i]
@@ -244,6 +257,30 @@ def check_cache_semantics(chk):
                               {'kind': 'cache-semantics', 'name': name})
             if cache and p2 != p1:
                 chk.add_drift('%s(cache=True): second pass after editing the build side %r, first pass %r' % (name, p2, p1))
+    # rarely used argument combinations, each against the sort-merge counterpart on the same inputs:
+    # exactly one prefix with field names that are not strings; a right table that repeats a field name
+    lt_ = [['k', 2019], [1, 'l1'], [2, 'l2'], [2, 'l2b']]
+    rt_ = [['k', 7, 2020.5], [1, 'x', 'r1'], [2, 'y', 'r2'], [3, 'z', 'r3']]
+    dup_r = [['id', 'shape', 'id'], [1, 'sq', 10], [2, 'ci', 20], [2, 'tr', 30]]
+    dup_l = [['id', 'colour'], [1, 'red'], [2, 'blue'], [4, 'green']]
+    combos = []
+    for hname, mname in (('hashjoin', 'join'), ('hashleftjoin', 'leftjoin'), ('hashrightjoin', 'rightjoin'), ('hashlookupjoin', 'lookupjoin')):
+        for kw in ({'lprefix': 'L_'}, {'rprefix': 'R_'}, {'lprefix': 'L_', 'rprefix': 'R_'}, {}):
+            combos.append((hname, mname, lt_, rt_, dict(kw, key='k')))
+        combos.append((hname, mname, dup_l, dup_r, {'key': 'id'}))
+    combos.append(('hashantijoin', 'antijoin', dup_l, dup_r, {'key': 'id'}))
+    for hname, mname, lt, rt, kw in combos:
+        chk.count(('rare-args', hname, json.dumps(sorted(kw), default=str)))
+        chk.replayed += 1
+        try:
+            h = [tuple(r) for r in getattr(etl, hname)(lt, rt, **kw)]
+            m = [tuple(r) for r in getattr(etl, mname)(lt, rt, **kw)]
+        except Exception as e:
+            chk.violation({'op': hname, 'kind': 'rare-args'}, '%s(%r) raised %r' % (hname, kw, e), {'kind': 'rare-args', 'name': hname})
+            continue
+        if repr(h[0]) != repr(m[0]) or sorted(map(repr, h[1:])) != sorted(map(repr, m[1:])):
+            chk.violation({'op': hname, 'kind': 'rare-args'},
+                          '%s(left=%r, right=%r, %r) delivers %r, %s delivers %r' % (hname, lt, rt, kw, h, mname, m), {'kind': 'rare-args', 'name': hname})
     # the hash joins WITHOUT a cache argument re-read both sides on every pass
     for name, merge in (('hashlookupjoin', 'lookupjoin'), ('hashantijoin', 'antijoin')):
         left = [['k', 'a'], [1, 'l1'], [2, 'l2'], [3, 'l3']]
